@@ -75,6 +75,8 @@ type schemeWorld struct {
 	cap     *capture
 	sink    *logSink
 	logger  log.Logger
+	sinkC   *logSink // the same, console format
+	loggerC log.Logger
 	secrets []secret
 	notes   []string
 	mu      sync.Mutex
@@ -98,6 +100,8 @@ func (w *schemeWorld) addSecret(name string, s interface{ MarshalBinary() ([]byt
 func newSchemeWorld(sch *crypto.Scheme, seed int64, n, thr int, period time.Duration, genesis int64) (*schemeWorld, error) {
 	w := &schemeWorld{sch: sch, rng: rand.New(rand.NewSource(seed)), cap: newCapture(), sink: &logSink{}}
 	w.logger = log.New(w.sink, log.DebugLevel, true)
+	w.sinkC = &logSink{}
+	w.loggerC = log.New(w.sinkC, log.DebugLevel, false)
 	for i := 0; i < n; i++ {
 		p, err := newPair(w.rng, freeAddr(), sch)
 		if err != nil {
@@ -411,11 +415,12 @@ type dnode struct {
 }
 
 type recBus struct {
-	w     *schemeWorld
-	mu    sync.Mutex
-	nodes map[string]*dnode
-	wg    sync.WaitGroup
-	off   bool
+	w        *schemeWorld
+	lastDeal *pdkg.DKGPacket // the latest genuine deal bundle seen on the network
+	mu       sync.Mutex
+	nodes    map[string]*dnode
+	wg       sync.WaitGroup
+	off      bool
 }
 
 func (b *recBus) get(a string) *dnode {
@@ -438,11 +443,53 @@ func (b *recBus) Packet(_ context.Context, p dnet.Peer, packet *pdkg.GossipPacke
 
 func (b *recBus) BroadcastDKG(_ context.Context, p dnet.Peer, in *pdkg.DKGPacket, _ ...grpc.CallOption) (*pdkg.EmptyDKGResponse, error) {
 	b.w.cap.recMsg("dkg.DKGPacket", in)
+	if in.GetDkg().GetDeal() != nil {
+		b.mu.Lock()
+		b.lastDeal = proto.Clone(in).(*pdkg.DKGPacket)
+		b.mu.Unlock()
+	}
 	n := b.get(p.Address())
 	if n == nil {
 		return nil, errors.New("no such address")
 	}
 	return n.proc.BroadcastDKG(context.Background(), proto.Clone(in).(*pdkg.DKGPacket))
+}
+
+// nodeLogger: even nodes log JSON, odd nodes the console format (both captured and scanned)
+func (w *schemeWorld) nodeLogger(i int) log.Logger {
+	if i%2 == 1 {
+		return w.loggerC
+	}
+	return w.logger
+}
+
+// forged returns variants of a genuine deal bundle that cannot verify: another session, a dealer
+// index nobody has, a session and signature of garbage. (A bundle with only its signature changed
+// hashes like the original and is dropped as a duplicate before any check.)
+func forged(p *pdkg.DKGPacket) []*pdkg.DKGPacket {
+	var out []*pdkg.DKGPacket
+	for mode := 0; mode < 3; mode++ {
+		c := proto.Clone(p).(*pdkg.DKGPacket)
+		d := c.GetDkg().GetDeal()
+		if d == nil {
+			return nil
+		}
+		switch mode {
+		case 0:
+			d.SessionId = append([]byte{}, d.SessionId...)
+			if len(d.SessionId) == 0 {
+				d.SessionId = []byte{1}
+			}
+			d.SessionId[0] ^= 0x55
+		case 1:
+			d.DealerIndex = 97
+		case 2:
+			d.SessionId = []byte("another-session-0123456789abcdef")
+			d.Signature = []byte("not-a-signature-not-a-signature-not-a-signature-not-a-signature.")
+		}
+		out = append(out, c)
+	}
+	return out
 }
 
 func (w *schemeWorld) dkgPart(tmp string, reshare bool) error {
@@ -464,7 +511,7 @@ func (w *schemeWorld) dkgPart(tmp string, reshare bool) error {
 		n := &dnode{kp: kp, part: part, store: st}
 		n.proc = dkg.NewDKGProcess(st, ident{kp}, out, bus, nil,
 			dkg.Config{Timeout: time.Minute, TimeBetweenDKGPhases: phase, KickoffGracePeriod: 600 * time.Millisecond},
-			w.logger.Named(fmt.Sprintf("dkg%d", i)))
+			w.nodeLogger(i).Named(fmt.Sprintf("dkg%d", i)))
 		n.done = out.Listen()
 		bus.nodes[kp.Public.Addr] = n
 		nodes = append(nodes, n)
@@ -555,6 +602,30 @@ func (w *schemeWorld) dkgPart(tmp string, reshare bool) error {
 	}
 	status("epoch1")
 	w.note("dkg: first DKG completed in %.1fs", time.Since(start).Seconds())
+	badPackets := func(tag string) {
+		bus.mu.Lock()
+		ld := bus.lastDeal
+		bus.mu.Unlock()
+		if ld == nil {
+			w.note("dkg: no deal bundle seen, no forged packet sent (%s)", tag)
+			return
+		}
+		sent, refused := 0, 0
+		for i, n := range nodes {
+			for _, f := range forged(ld) {
+				// what anyone can send to the node's private port while its broadcast board is registered
+				_, err := n.proc.BroadcastDKG(context.Background(), f)
+				sent++
+				if err != nil {
+					refused++
+					w.cap.add(fmt.Sprintf("dkg.BroadcastDKG.forged@%s/error", tag), []byte(err.Error()))
+				}
+			}
+			_ = i
+		}
+		w.note("dkg: %d forged deal bundles sent after %s, %d refused", sent, tag, refused)
+	}
+	badPackets("epoch1")
 	if !reshare {
 		return nil
 	}
@@ -585,5 +656,6 @@ func (w *schemeWorld) dkgPart(tmp string, reshare bool) error {
 	}
 	status("epoch2")
 	w.note("dkg: resharing completed in %.1fs", time.Since(start2).Seconds())
+	badPackets("epoch2")
 	return nil
 }
